@@ -263,48 +263,56 @@ def deviation_witness(ctx, r):
 
 
 EXHIBITS = [
-    # (name, constants, cfg kw, violated property, signature the replay must establish)
+    # (name, constants, cfg kw, violated property, signature the replay must establish, deviation constant)
     ('orphan-after-savepoint',
      dict(NNode=2, FNodes=(), Holders=('direct',), KindSets='KS_Plain', MaxEdges=1, MaxOps=4, Savepoints=True),
      dict(properties=['StoredIffReachableOrAdded']), 'StoredIffReachableOrAdded',
-     ('Commit', 'stored-iff', 'orphan-after-savepoint')),
+     ('Commit', 'stored-iff', 'orphan-after-savepoint'), 'SavepointOrphans'),
     ('import-abort-reattach',
      dict(NNode=2, FNodes=(), Holders=('direct',), KindSets='KS_Plain', MaxEdges=1, MaxOps=4, ImportSlots=(1,)),
      dict(invariants=['NoDanglingStrong']), 'NoDanglingStrong',
-     ('Commit', 'dangling', 'reference-to-unstored-object')),
+     ('Commit', 'dangling', 'undone-import-reattached'), 'ImportNotCreating'),
     ('py2-module-name', dict(NNode=2, FNodes=(), Holders=('direct',), KindSets='KS_Py2', MaxEdges=1, MaxOps=3),
      dict(invariants=['LoadedClassesArePresent']), 'LoadedClassesArePresent',
-     ('LoadElsewhere', 'class', 'py2-module-name-remapped')),
+     ('LoadElsewhere', 'class', 'py2-module-name-remapped'), 'Py2Remap'),
     ('missing-container-class', dict(NNode=2, FNodes=(), Holders=('glist', 'gdict'), KindSets='KS_Plain', MaxEdges=1, MaxOps=3),
      dict(invariants=['LoadedAllLoad']), 'LoadedAllLoad',
-     ('LoadElsewhere', 'load', 'missing-container-class-unloadable')),
+     ('LoadElsewhere', 'load', 'missing-container-class-unloadable'), 'BrokenContainerUnloadable'),
     ('missing-class-reduce-args', dict(NNode=2, FNodes=(), Holders=('rvalue',), KindSets='KS_Plain', MaxEdges=1, MaxOps=3,
                                        Touches=True),
      dict(properties=['TouchKeepsRecords']), 'TouchKeepsRecords',
-     ('TouchElsewhere', 'record', 'missing-class-reduce-args-rewritten')),
+     ('TouchElsewhere', 'record', 'missing-class-reduce-args-rewritten'), 'BrokenReduceLosesArgs'),
 ]
 
 
 def exhibits(ctx, tally, results):
     """For every deviation constant: with the constant at the code's behaviour TLC exhibits the violated property;
     the counterexample, replayed on the code, must conform step by step - which establishes the violation on the
-    code (reported by the replay's property monitor under a signature of its own)."""
-    out = {}
-    for name, c, kw, prop, want in EXHIBITS:
-        r = results['exhibit-' + name]
-        steps = [dict(s) for s in r.trace]
-        res = _replay_job((steps, 'mapping', 'seq', (), os.path.join(ctx.scratch, 'exhibit-' + name), {}))
+    code (reported by the replay's property monitor under a signature of its own).  If the replay leaves the
+    as-it-is specification instead, the tree under test does not have the deviation: every conformance run of the
+    check then uses the repaired setting of that constant (and any other cause of the divergence shows up there).
+    -> (what was seen per exhibit, deviations the tree does not have)"""
+    jobs = [([dict(s) for s in results['exhibit-' + e[0]].trace], 'mapping', 'seq', (),
+             os.path.join(ctx.scratch, 'exhibit-' + e[0]), {}) for e in EXHIBITS]
+    out, repaired = {}, []
+    for e, res in zip(EXHIBITS, graph_par.pmap(_replay_job, jobs, ctx.scratch, chunksize=1, on_death=_died)):
+        name, want, dev = e[0], e[4], e[5]
         res['source'] = None
         got = {(sm['action'], sm['what'], sm['item']) for sm in res.get('soft', ())}
-        tally.add(ctx, [res], 'exhibit/' + name)
         if res['mismatch']:
-            out[name] = 'diverges from the specification of the code as it is'
-        elif want in got:
+            mm = res['mismatch']
+            out[name] = 'the tree does not follow the as-it-is specification (%s %s/%s: %s): %s taken as repaired' % (
+                mm['action'], mm['what'], mm['item'], mm['detail'][:160], dev)
+            repaired.append(dev)
+            ctx.notes.append('exhibit %s: %s' % (name, out[name]))
+            continue
+        tally.add(ctx, [res], 'exhibit/' + name)
+        if want in got:
             out[name] = 'established on the code: ' + ' '.join(res['sig'])
         else:
             out[name] = 'not observed on the code'
             ctx.notes.append('exhibit %s: the replay conforms but the monitor did not fire' % name)
-    return out
+    return out, tuple(repaired)
 
 
 def run(ctx):
@@ -330,18 +338,26 @@ def run(ctx):
                 Savepoints=True, ImportSlots=(2,), repaired=DEVIATIONS)
     batch.mc('savepoints-3n', _cfg(ctx, 'savepoints-3n', sp, invariants=INVARIANTS + ['NoStaleObjects'], view='View',
                                    properties=PROPERTIES + ['SavepointsInvisible']), workers=4, timeout=900)
-    for name, c, kw, prop, want in EXHIBITS:
+    for name, c, kw, prop, want, dev in EXHIBITS:
         batch.mc('exhibit-' + name, _cfg(ctx, 'exhibit-' + name, consts(**c), view='View', **kw), expect=prop, workers=1,
                  timeout=600)
+    results = batch.run()
+    # every TLC thread is joined: replay the counterexamples; they say which deviations the tree under test has
+    witness = deviation_witness(ctx, results['weakadds-off'])
+    shown, repaired = exhibits(ctx, tally, results)
+    batch = Batch(ctx, parallel=6)
     # 2. all small graphs
     # node kinds of the quick configuration: newargs (root), gone, gonenew; plain nodes are in the programs
-    gcfgs = [('graphs-rot1', consts(NNode=3, FNodes=(100,), Holders=('direct', 'deep'), KindSets='KS_Rot1', MaxEdges=2), (100,))]
+    gcfgs = [('graphs-rot1', consts(NNode=3, FNodes=(100,), Holders=('direct', 'deep'), KindSets='KS_Rot1', MaxEdges=2,
+                                    repaired=repaired), (100,))]
     if not q:
         gcfgs += [
-            ('graphs-3edges', consts(NNode=3, FNodes=(), Holders=('direct', 'list'), KindSets='KS_Rot0', MaxEdges=3), ()),
+            ('graphs-3edges', consts(NNode=3, FNodes=(), Holders=('direct', 'list'), KindSets='KS_Rot0', MaxEdges=3,
+                                     repaired=repaired), ()),
             ('graphs-3holders', consts(NNode=3, FNodes=(100, 101), Holders=('list', 'dict', 'deep'),
-                                       KindSets='KS_Rot2', MaxEdges=2), (100, 101)),
-            ('graphs-rot3', consts(NNode=3, FNodes=(101,), Holders=('list', 'dict'), KindSets='KS_Rot3', MaxEdges=2), (101,)),
+                                       KindSets='KS_Rot2', MaxEdges=2, repaired=repaired), (100, 101)),
+            ('graphs-rot3', consts(NNode=3, FNodes=(101,), Holders=('list', 'dict'), KindSets='KS_Rot3', MaxEdges=2,
+                                   repaired=repaired), (101,)),
         ]
     for name, c, fn in gcfgs:
         batch.mc(name, _cfg(ctx, name, c, init='InitGraphs', next_='NextGraphs', invariants=GRAPH_INVARIANTS), workers=4,
@@ -349,16 +365,13 @@ def run(ctx):
     # 3. mutation programs of a larger configuration
     big = consts(NNode=4, FNodes=(100, 101), Holders=('direct', 'list', 'dict', 'deep', 'glist', 'gdict', 'rvalue'),
                  KindSets='KS_RootPlain', MaxEdges=6, MaxOps=14, NCand=40, CandSize=6, Lifecycle=True, Savepoints=True,
-                 Touches=True)
+                 Touches=True, repaired=repaired)
     batch.sim('programs-4n', big, num=1500 if q else 12000, depth=18)
     # savepoint-dense programs over a small universe (savepoint, rollback to any live savepoint, re-attach, commit)
     spd = consts(NNode=3, FNodes=(), Holders=('direct', 'list'), KindSets='KS_Three', MaxEdges=3, MaxOps=11, NCand=12,
-                 CandSize=7, Savepoints=True, ImportSlots=(2,))
+                 CandSize=7, Savepoints=True, ImportSlots=(2,), repaired=repaired)
     batch.sim('programs-sp', spd, num=500 if q else 4000, depth=13)
     results = batch.run()
-    # every TLC thread is joined: replay
-    witness = deviation_witness(ctx, results['weakadds-off'])
-    shown = exhibits(ctx, tally, results)
     ncases = {}
     for name, c, fn in gcfgs:
         ncases[name] = graphs(ctx, tally, name, results[name], fn, both=not q and name == 'graphs-rot1')
@@ -410,6 +423,7 @@ def run(ctx):
         'stored_through_weak_reference_only': tally.weak_added,
         'weak_adds_deviation_in_code': witness,
         'deviations_exhibited': shown,
+        'deviations_the_tree_does_not_have': list(repaired),
         'per_storage': tally.by_storage,
         'per_oid_pattern': tally.by_pattern,
         'samples': tally.samples or [['(no sample)']],
